@@ -272,7 +272,9 @@ myth_tls_key_allocator_alloc(myth_tls_key_allocator_t * s,
     myth_tls_key_entry_t * ke = s->free;
     if (ke) {
       myth_tls_key_entry_t * next = ke->next;
+      MYTH_VERIF_POINT(MVP_KEY_ALLOC_A);
       if (__sync_bool_compare_and_swap(&s->free, ke, next)) {
+	MYTH_VERIF_POINT(MVP_KEY_ALLOC_B);
 	/* mark the key as used */
 	ke->next = (myth_tls_key_entry_t *)-1;
 	ke->destructor = destructor;
@@ -300,6 +302,7 @@ myth_tls_key_allocator_dealloc(myth_tls_key_allocator_t * s, int key) {
     /* try to push the cell to the free list */
     myth_tls_key_entry_t * head = s->free;
     ke->next = head;
+    MYTH_VERIF_POINT(MVP_KEY_FREE_A);
     if (__sync_bool_compare_and_swap(&s->free, head, ke)) {
       return f;
     }
